@@ -465,6 +465,9 @@ SMOOTH = {
 }
 
 
+STEP_KINDS = ('nearest', 'previous', 'next', 'zero')
+
+
 def build_phase(rng, lengths, gaps, sharp=False):
     """Strictly increasing jittered phase on every cycle (some cycles start late / end early, i.e. are
     not 'good' cycles, but every boundary is still a phase wrap); optional unlabelled stretches.
@@ -581,6 +584,10 @@ class Align(Stream):
              'quantity': {'kind': 'affine', 'a': 3.0, 'b': -1.0}, 'kind': 'linear'},
             {'lengths': [8, 12], 'seed': 22, 'gaps': True, 'cycles': 'vector', 'npoints': 64, 'sharp': True,
              'quantity': {'kind': 'affine', 'a': 3.0, 'b': -1.0}, 'kind': 'linear'},
+            {'lengths': [9, 13, 40], 'seed': 23, 'gaps': False, 'cycles': 'vector', 'npoints': 24, 'kind': 'nearest',
+             'quantity': {'kind': 'smooth', 'name': 'sin'}},
+            {'lengths': [8, 12], 'seed': 24, 'gaps': True, 'cycles': 'default', 'npoints': 16, 'kind': 'previous',
+             'quantity': {'kind': 'smooth', 'name': 'sin'}},
             {'lengths': [2, 3], 'seed': 3, 'gaps': True, 'cycles': 'vector', 'npoints': 2,
              'quantity': {'kind': 'affine', 'a': 1.0, 'b': 0.0}},
             {'lengths': [40, 80], 'seed': 4, 'gaps': False, 'cycles': 'default', 'npoints': 64,
@@ -615,7 +622,12 @@ class Align(Stream):
                     'quantity': q, 'kind': kind}
             if fam != 'short' and rng.random() < (0.35 if cycles == 'default' else 0.15):
                 case['prior'] = rng.getrandbits(32)     # seed of the phase the arrays held during a first call
-            if fam == 'normal' and rng.random() < 0.25:
+            if fam != 'short' and not case.get('prior') and rng.random() < 0.15:
+                # piecewise-constant interpolation kinds: every aligned value inside the sampled phase range is an OBSERVED value
+                # of that cycle (round 5, C14 patch 2: the requested kind silently replaced by linear interpolation)
+                case['kind'] = rng.choice(['nearest', 'previous', 'next', 'zero'])
+                case['quantity'] = {'kind': 'smooth', 'name': rng.choice(sorted(SMOOTH))}
+            elif fam == 'normal' and rng.random() < 0.25:
                 case['sharp'] = True                    # one step > pi inside some cycles; exactness claimed for linear quantities
                 case['quantity'] = {'kind': 'affine', 'a': rng.randint(-40, 40) / 8.0, 'b': rng.randint(-40, 40) / 4.0}
                 case['kind'] = 'linear'
@@ -736,6 +748,16 @@ class Align(Stream):
                 hmax = max(max(b - a for a, b in zip(ph, ph[1:])) for ph in good)
                 lo, hi = max(ph[0] for ph in good), min(ph[-1] for ph in good)
             col = out['cols'][k]
+            if case.get('kind') in STEP_KINDS:
+                if per_cycle:
+                    seen = [x[i] for i in range(len(used)) if used[i] == k]
+                    for j, t in enumerate(bins):
+                        if lo <= t <= hi and col[j] is not None and not any(abs(col[j] - v) <= 1e-12 * max(1.0, abs(v)) for v in seen):
+                            fs.append(Failure('align:step-kind-returns-unobserved-value',
+                                              'interp_kind=%s cycle %d bin %d (phase %.4f): %r is none of the %d values observed in that cycle%s'
+                                              % (case['kind'], k, j, t, col[j], len(seen), how), literal=not short))
+                            return fs
+                continue
             for j, t in enumerate(bins):
                 if q['kind'] == 'affine':
                     want = q['a'] * t + q['b']
